@@ -162,11 +162,26 @@ func init() {
 		h := e.arrHeap(types.Typ[types.String])
 		s := args[0].T
 		el := func(i string) string { return sel(sel(st.H(h), app("s_arr", s)), app("sidx", app("s_off", s), i)) }
+		e.declFields()
+		// in general: a function of the element sequence and the separator
+		e.assume(implies(g, eq(res, app("str_join", sel(st.H(h), app("s_arr", s)), app("s_off", s), app("s_len", s), args[1].T))))
 		e.assume(implies(eq(app("s_len", s), "0"), eq(res, "str_empty")))
 		e.assume(implies(eq(app("s_len", s), "1"), eq(res, el("0"))))
 		e.assume(implies(eq(app("s_len", s), "2"), eq(res, app("str_cat", app("str_cat", el("0"), args[1].T), el("1")))))
 		return Val{T: res}
 	}
+	externs["strings.Fields"] = func(f *Frame, b *ssa.BasicBlock, in *ssa.Call, args []Val, st *State, g string) Val {
+		e := f.e
+		e.note("assumed contract: strings.Fields(s) returns a fresh slice whose elements are a function of s (fields_arr, fields_len); no heap effect on existing objects")
+		e.declFields()
+		h := e.arrHeap(types.Typ[types.String])
+		r := f.allocRef(st, "fields")
+		st.heap[h] = app("store", st.H(h), r, app("fields_arr", args[0].T))
+		n := app("fields_len", args[0].T)
+		return Val{T: app("mk_slice", r, "0", n, n)}
+	}
+	externWrites["strings.Fields"] = noWrites
+	externReads["strings.Fields"] = func(fn *ssa.Function) []hkey { return nil }
 	externWrites["strings.Join"] = noWrites
 	externReads["strings.Join"] = func(fn *ssa.Function) []hkey { return nil }
 	externWrites["fmt.Sprintf"] = noWrites
@@ -202,6 +217,12 @@ func init() {
 	}
 	externWrites["(*sync.Mutex).Lock"] = noWrites
 	externWrites["(*sync.Mutex).Unlock"] = noWrites
+}
+
+// declFields declares the functions that model strings.Fields and the general strings.Join.
+func (e *Enc) declFields() {
+	e.declRaw("fields_arr", "(declare-fun fields_arr (Str) (Array Int Str))\n(declare-fun fields_len (Str) Int)\n(assert (forall ((s Str)) (! (>= (fields_len s) 0) :pattern ((fields_len s)))))\n"+
+		"(declare-fun str_join ((Array Int Str) Int Int Str) Str)")
 }
 
 // variadicErrorOperands: for a call f(format, a...) whose variadic slice is built in place, which operands
